@@ -488,11 +488,16 @@ pub fn realise(raw: &RawFacts, cfg: &GenCfg) -> Facts {
             1 => Some(ids[i]).filter(|r| *r != 0),
             2 => {
                 // dangling: an id that is not a term (and not 0: 0 encodes "none" in the binary format)
-                let mut d = 1 + (p as u32) * 151 % (ID_SPACE - 1);
-                while used.contains(&d) || d == 0 {
-                    d = d % (ID_SPACE - 1) + 1;
+                if p % 5 == 0 {
+                    // beyond the id space: a replacement id is only stored, never resolved
+                    Some([ID_SPACE, ID_SPACE + 1, 1 << 24, 1 << 31, u32::MAX - 1, u32::MAX][(p / 5) as usize % 6])
+                } else {
+                    let mut d = 1 + (p as u32) * 151 % (ID_SPACE - 1);
+                    while used.contains(&d) || d == 0 {
+                        d = d % (ID_SPACE - 1) + 1;
+                    }
+                    Some(d)
                 }
-                Some(d)
             }
             _ => {
                 let r = ids[pick(p, n)];
@@ -756,6 +761,9 @@ pub fn labels(f: &Facts, m: &Model) -> Vec<&'static str> {
     }
     if f.terms.iter().any(|t| t.replacement.is_some()) {
         l.push("replaced");
+    }
+    if f.terms.iter().any(|t| t.replacement.is_some_and(|r| r >= ID_SPACE)) {
+        l.push("replacement-beyond-id-space");
     }
     if f.terms.iter().any(|t| t.replacement.is_some_and(|r| !m.has(r))) {
         l.push("dangling-replacement");
